@@ -141,6 +141,16 @@ def run_case(spec0):
             split = bool(rng.random() < 0.75)
             before = scan_cache(param, spec) if split else {}
             res['observations'] += 1
+            # now and then the request also names a variable this simulation did
+            # not output at all: the others come back as usual, with or without cache
+            absent = None
+            if rng.random() < 0.2:
+                cand_abs = [a for e, (_, _, a) in etgen.VARS.items()
+                            if e in ('trK', 'H', 'tau', 'press', 'eps') and e not in spec['vars']
+                            and a not in want]
+                if cand_abs:
+                    absent = cand_abs[int(rng.integers(len(cand_abs)))]
+                    want = list(want) + [absent]
             it_arg, vars_arg, par_snap = list(req), list(want), dict(param)
             try:
                 with common.Quiet():
@@ -160,8 +170,14 @@ def run_case(spec0):
                                       "it_before": list(req), "it_after": it_arg, "call": ci})
                 break
             its = [int(i) for i in data['it']]
+            if absent is not None and any(g is not None for g in data.get(absent, [])):
+                common.add_violation(res, "data returned for a variable the simulation never wrote",
+                                     {"var": absent, "call": ci})
+                break
             comp = []
             for w in want:
+                if w == absent:
+                    continue
                 for cn in etgen.TENSORS.get(w, [w]):
                     if cn not in comp:
                         comp.append(cn)
